@@ -311,14 +311,34 @@ def _r1(ctx):
         U(C.flow_of(fa).subst(cvcall[0].args[2])) == "%s.get_loopcarried_dependencies()" % fa.params()[2]
     pair("LCD source / get_loopcarried_dependencies()", bool(dd) and t_dd, fa.where(),
          "text and dict must both start from get_loopcarried_dependencies()")
+    lcd_list(ctx, "R1")
+
+
+def lcd_list(ctx, rule="R1"):
+    """The list-based LCD report prints every entry of get_loopcarried_dependencies() once, with latency and member lines
+    (shared with C05: 'each cycle is reported once')."""
+    fa = ctx.func("Frontend.full_analysis")
+
+    def pair(name, ok, where, detail, recognised=True):
+        ctx.judge(ok, recognised, rule, name, where, "text report and dict disagree on %s: %s" % (name, detail),
+                  "Frontend", "pair " + name)
     # --- LCD list
     ll = ctx.func("Frontend.loopcarried_dependencies")
     dep = ll.params()[1]
     loops = [n for n in ast.walk(ll.node) if isinstance(n, ast.For)]
     ok = len(loops) == 1 and U(loops[0].iter) in ("sorted(%s.keys())" % dep, "sorted(%s)" % dep, "%s" % dep, "%s.keys()" % dep)
+    keyvar = U(loops[0].target) if len(loops) == 1 else None
+    if len(loops) == 1 and not ok:
+        # the keys taken through a helper dict / list that holds every key once: `for k, extra in helper.items()`
+        it_ = loops[0].iter
+        tg_ = loops[0].target
+        if isinstance(it_, ast.Call) and isinstance(it_.func, ast.Attribute) and it_.func.attr == "items" and isinstance(tg_, ast.Tuple) and len(tg_.elts) == 2:
+            keyvar = U(tg_.elts[0])
+        # (whether the domain is every entry is decided by domain() below)
+        ok = isinstance(tg_, (ast.Name, ast.Tuple))
     list_rec_unknown = False
     if ok:
-        k = U(loops[0].target)
+        k = keyvar
         body = U(loops[0])
         ok = ("%s[%s]['latency']" % (dep, k)) in body and (
             "[node.line_number for node, lat in %s[%s]['dependencies']]" % (dep, k)) in body.replace('"', "'")
@@ -350,7 +370,7 @@ def _r1(ctx):
                 return domain(v, depth + 1)
         return None
     dom = domain(loops[0].iter) if len(loops) == 1 else None
-    if dom is False:
+    if dom is not True:
         ok = False
     pair("LCD list / every loop-carried dependency with latency and member lines", ok, ll.where(),
          "the list must iterate all keys and print each entry's latency and member line numbers",
